@@ -144,6 +144,14 @@ Proof.
 Qed.
 Print Assumptions C09_early_completion_never_refused.
 
+(* a commit never deadlocks: in every reachable committed state the channel belongs to a caller that has written
+   its request and is on its way out of sendPacket; its next step is enabled, makes it listen, and the send
+   completes in the same breath *)
+Theorem C09_early_commit_resolves : forall c ls x, xrun (plain (init2 c)) ls = Some x -> committed x = true ->
+  exists t x', xstep x (L1 (LStep (ACaller t) 0)) = Some x' /\ committed x' = false.
+Proof. exact xcommit_resolves. Qed.
+Print Assumptions C09_early_commit_resolves.
+
 Theorem C09_live_histories_are_early_histories : forall ls s s',
   run2 s ls = Some s' -> xrun (plain s) ls = Some (plain s').
 Proof. exact run2_is_xrun. Qed.
